@@ -28,9 +28,11 @@ def statelessHandlers : List Handler := [handleC03, handleC04, handleC05, handle
 def dispatch : SHandler DState := fun cfg op a impl st =>
   match statelessHandlers.firstM (fun h => h cfg op a impl) with
   | some v =>
-    -- third voice: the definitions generated from the Rust source (translator/gen_fns.py) on the same line;
+    -- third voice: the definitions generated from the Rust source (translator/gen_fns.py) on the same line
+    -- (switched off while some function is outside the translator's subset: its stub would only add noise;
+    -- the broken tie is reported by run.py);
     -- a difference from the implementation is reported as a disagreement whose model output starts with `src`
-    match srcOut cfg op a with
+    match (if Generated.Src.untranslated.isEmpty then srcOut cfg op a else none) with
     | some t => if t != impl && v.model == impl then some ({ v with model := "src" :: t }, st) else some (v, st)
     | none => some (v, st)
   | none =>
